@@ -3,7 +3,11 @@
 Real stacks of PoolDecorator / Logger / Standardiser / Buffer (depth 0-8, any order) over a recording
 pool holding exact Fractions; histories of reads, demand writes and changes of the underlying pool;
 a capturing logging.Handler on every logger name in use records (name, levelno, msg, args mapping,
-target position) and the pool's demand at emission time."""
+target position) and the pool's demand at emission time.  Standardiser and Buffer are opaque for C16:
+each real instance sits between a Probe (calls arriving, return values) and a Tap (what it does to its
+target); the observed behaviour is handed to the model as a script, so that a change of THEIR demand
+semantics (C06's business) can never raise a C16 alarm, while everything C16 claims around them
+(transparency of supply/utilisation/allocation, Logger records above and below them) is still checked."""
 import logging
 import warnings
 from fractions import Fraction as F
@@ -31,12 +35,16 @@ TRUSTED_BASE = [
     "tied to _proxy.py / logger.py / standardiser.py / buffer.py and to CPython 3.12 by the correspondence run only",
     "ideal arithmetic (cases use Fractions; float infinities only as Standardiser defaults)",
     "python's logging delivers a record for every Logger.log call with level >= 1 on an enabled logger",
+    "harness Probe/Tap pools around every Standardiser/Buffer instance forward all four attributes unchanged",
 ]
 ASSUMPTIONS = [
     "the underlying pool is plain: its supply/utilisation/allocation do not change when its demand is written",
     "logging levels are positive integers (level <= 0 is never enabled by logging.Logger.isEnabledFor)",
     "format widths/precisions are small (huge ones raise 'width too big' / MemoryError in CPython; not modelled)",
     "Buffer.run (the trio service flushing the stored demand) is not started",
+    "Standardiser/Buffer: only supply/utilisation/allocation transparency is claimed; their demand behaviour is "
+    "observed, not predicted (an opaque level that raises, or writes its target from a getter/constructor, makes "
+    "the case neutral)",
 ]
 
 FIELDS = ["value", "demand", "supply", "utilisation", "allocation", "consumption", "target"]
@@ -243,7 +251,9 @@ def template_text(t):
     return _default_message() if t["kind"] == "default" else t["text"]
 
 
-def _mk_pool(spec, events):
+def _mk_classes(events):
+    """recording pool; Tap (below an opaque object: what it does to its target's demand) and Probe
+    (above it: the demand calls that arrive and what they return).  Both forward all four attributes."""
     from cobald.interfaces import Pool
 
     class RecPool(Pool):
@@ -263,7 +273,49 @@ def _mk_pool(spec, events):
             events.append(["pw", v])
             self._d = v
     RecPool.__qualname__ = "RecPool"
-    return RecPool(*[un(x) for x in spec])
+
+    class Tap(Pool):
+        def __init__(self, target, lvl):
+            self.target, self.lvl = target, lvl
+
+        supply = property(lambda self: self.target.supply)
+        utilisation = property(lambda self: self.target.utilisation)
+        allocation = property(lambda self: self.target.allocation)
+
+        @property
+        def demand(self):
+            events.append(["tget", self.lvl])
+            return self.target.demand
+
+        @demand.setter
+        def demand(self, v):
+            events.append(["tset", self.lvl, v])
+            self.target.demand = v
+
+    def probe_class(qualname):
+        class Probe(Pool):
+            def __init__(self, obj, lvl):
+                self.obj, self.lvl = obj, lvl
+
+            supply = property(lambda self: self.obj.supply)
+            utilisation = property(lambda self: self.obj.utilisation)
+            allocation = property(lambda self: self.obj.allocation)
+
+            @property
+            def demand(self):
+                events.append(["genter", self.lvl])
+                r = self.obj.demand
+                events.append(["gexit", self.lvl, r])
+                return r
+
+            @demand.setter
+            def demand(self, v):
+                events.append(["senter", self.lvl, v])
+                self.obj.demand = v
+                events.append(["sexit", self.lvl])
+        Probe.__qualname__ = qualname       # Logger(name=None) takes the target's class name
+        return Probe
+    return RecPool, Tap, probe_class
 
 
 def _lname(n):
@@ -277,18 +329,15 @@ def _name_id(name):
 
 
 class _Capture(logging.Handler):
-    def __init__(self, events, pool, chain):
+    def __init__(self, events, pool, depth_of):
         super().__init__(level=0)
-        self.events, self.pool, self.chain = events, pool, chain
+        self.events, self.pool, self.depth_of = events, pool, depth_of
 
     def emit(self, record):
         a = record.args
         depth = None
         if isinstance(a, dict):
-            tgt = a.get("target")
-            for i, obj in enumerate(self.chain):      # chain: pool first, outermost last
-                if obj is tgt:
-                    depth = i
+            depth = self.depth_of.get(id(a.get("target")))
             fields = {k: a.get(k) for k in ("value", "demand", "supply", "utilisation", "allocation", "consumption")}
         else:
             fields = {"bad_args": repr(type(a))}
@@ -305,6 +354,58 @@ def _q(x):
         return "nonnumeric:%s" % type(x).__name__
 
 
+def _canon(ev):
+    if ev[0] == "pw":
+        return ["pw", _q(ev[1])]
+    if ev[0] == "log":
+        return ["log", _name_id(ev[1]), ev[2], ev[3], {k: _q(v) for k, v in ev[4].items()}, ev[5], _q(ev[6]), ev[7]]
+    if ev[0] in ("tset", "senter"):
+        return [ev[0], ev[1], _q(ev[2])]
+    if ev[0] == "gexit":
+        return ["gexit", ev[1], _q(ev[2])]
+    return list(ev)
+
+
+def _scripts(all_events, opaque_levels):
+    """per opaque level: constructor reads, and one entry per demand call that arrived at it"""
+    out = {}
+    for k in opaque_levels:
+        init, entries, cur, bad = 0, [], None, False
+        for ev in all_events:
+            if len(ev) < 2 or ev[1] != k or ev[0] in ("log", "pw"):
+                continue
+            if ev[0] == "genter":
+                cur = ["G", 0, None]
+            elif ev[0] == "gexit":
+                if cur is None or cur[0] != "G":
+                    bad = True
+                else:
+                    entries.append(["G", cur[1], ev[2]])
+                cur = None
+            elif ev[0] == "senter":
+                cur = ["S", ev[2], []]
+            elif ev[0] == "sexit":
+                if cur is None or cur[0] != "S":
+                    bad = True
+                else:
+                    entries.append(cur)
+                cur = None
+            elif ev[0] == "tget":
+                if cur is None:
+                    init += 1
+                elif cur[0] == "G":
+                    cur[1] += 1
+                else:
+                    cur[2].append(["g"])
+            elif ev[0] == "tset":
+                if cur is None or cur[0] == "G":
+                    bad = True          # a constructor / a read that writes its target: not modelled
+                else:
+                    cur[2].append(["s", ev[2]])
+        out[str(k)] = {"init": init, "entries": entries, "bad": bad or cur is not None}
+    return out
+
+
 def run_impl(case):
     from cobald.interfaces import PoolDecorator
     from cobald.decorator.logger import Logger
@@ -312,15 +413,18 @@ def run_impl(case):
     from cobald.decorator.buffer import Buffer
     inf = float("inf")
     events = []
-    pool = _mk_pool(case["pool"], events)
-    chain = [pool]
-    res = {"built": None, "warn": 0, "obs": []}
+    RecPool, Tap, probe_class = _mk_classes(events)
+    probes = {"std": probe_class("Standardiser"), "buffer": probe_class("Buffer")}
+    pool = RecPool(*[un(x) for x in case["pool"]])
+    depth_of = {id(pool): 0}
+    res = {"built": None, "warn": 0, "obs": [], "opaque_fail": {}}
     logging.disable(logging.NOTSET)
     names = set()
     top = pool
+    opaque_levels = []
     with warnings.catch_warnings(record=True) as wlist:
         warnings.simplefilter("always")
-        for spec in reversed(case["specs"]):
+        for lvl, spec in enumerate(reversed(case["specs"])):
             try:
                 if spec[0] == "plain":
                     top = PoolDecorator(top)
@@ -332,14 +436,19 @@ def run_impl(case):
                         kw["message"] = spec[3]["text"]
                     top = Logger(top, **kw)
                     names.add(top.name)
-                elif spec[0] == "std":
-                    lo, hi, gran, backlog, surplus = spec[1:]
-                    top = Standardiser(top, minimum=-inf if lo is None else un(lo), maximum=inf if hi is None else un(hi),
-                                       granularity=un(gran), backlog=inf if backlog is None else un(backlog),
-                                       surplus=inf if surplus is None else un(surplus))
                 else:
-                    top = Buffer(top)
-                chain.append(top)
+                    opaque_levels.append(lvl)
+                    tap = Tap(top, lvl)
+                    if spec[0] == "std":
+                        lo, hi, gran, backlog, surplus = spec[1:]
+                        obj = Standardiser(tap, minimum=-inf if lo is None else un(lo),
+                                           maximum=inf if hi is None else un(hi), granularity=un(gran),
+                                           backlog=inf if backlog is None else un(backlog),
+                                           surplus=inf if surplus is None else un(surplus))
+                    else:
+                        obj = Buffer(tap)
+                    top = probes[spec[0]](obj, lvl)
+                depth_of[id(top)] = lvl + 1
             except RuntimeError:
                 res["built"] = "runtime"
             except ValueError:
@@ -349,12 +458,15 @@ def run_impl(case):
             except Exception as e:
                 res["built"] = "other:%s" % type(e).__name__
             if res["built"]:
+                if spec[0] in ("std", "buffer"):
+                    res["opaque_fail"][str(lvl)] = res["built"]
                 break
         res["warn"] = sum(1 for w in wlist if issubclass(w.category, FutureWarning))
-        res["warn_other"] = sorted({w.category.__name__ for w in wlist if not issubclass(w.category, FutureWarning)})
+    construction_events = [_canon(e) for e in events]
     if res["built"]:
+        res["scripts"] = _scripts(construction_events, opaque_levels)
         return res
-    handler = _Capture(events, pool, chain)
+    handler = _Capture(events, pool, depth_of)
     saved = []
     for nm in sorted(names):
         lg = logging.getLogger(nm)
@@ -363,17 +475,18 @@ def run_impl(case):
         lg.propagate = False
         lg.disabled = False
         lg.addHandler(handler)
+    all_events = list(construction_events)
     del events[:]
     try:
         for op in case["ops"]:
             o = {"op": op[0]}
             pre = len(events)
+            o["pool_before"] = [_q(pool._d), _q(pool._s), _q(pool._u), _q(pool._a)]
             try:
                 if op[0] == "read":
                     d = top.demand
                     o["read"] = [_q(d), _q(top.supply), _q(top.utilisation), _q(top.allocation)]
                 elif op[0] == "write":
-                    o["pool_before"] = _q(pool._d)
                     top.demand = un(op[1])
                 elif op[0] == "pstate":
                     pool._s, pool._u, pool._a = un(op[1]), un(op[2]), un(op[3])
@@ -381,22 +494,19 @@ def run_impl(case):
                     pool._d = un(op[1])
             except Exception as e:
                 o["raised"] = "%s: %s" % (type(e).__name__, e)
-            evs = []
-            for ev in events[pre:]:
-                if ev[0] == "pw":
-                    evs.append(["pw", _q(ev[1])])
-                else:
-                    evs.append(["log", _name_id(ev[1]), ev[2], ev[3],
-                                {k: _q(v) for k, v in ev[4].items()}, ev[5], _q(ev[6]), ev[7]])
-            o["events"] = evs
+            o["events"] = [_canon(ev) for ev in events[pre:]]
+            all_events += o["events"]
             o["pool"] = [_q(pool._d), _q(pool._s), _q(pool._u), _q(pool._a)]
             res["obs"].append(o)
+            if "raised" in o:
+                break
     finally:
         for lg, lvl, prop, dis in saved:
             lg.removeHandler(handler)
             lg.setLevel(lvl)
             lg.propagate = prop
             lg.disabled = dis
+    res["scripts"] = _scripts(all_events, opaque_levels)
     return res
 
 
@@ -415,6 +525,111 @@ def _simple_expect(t):
     return None, warn
 
 
+KIND_CLASS = {"plain": "PoolDecorator", "logger": "Logger", "std": "Standardiser", "buffer": "Buffer"}
+
+
+class _Bad(Exception):
+    pass
+
+
+def _check_write(specs, o, val, step):
+    """The effects of one demand write, parsed against the property: a write of v arriving at a run of
+    plain decorators / Loggers produces exactly one record per Logger, outermost first, each carrying v
+    and the target's state from before, and then arrives unchanged at whatever lies below (the pool, or
+    an opaque Standardiser / Buffer, whose own forwarded writes are parsed the same way)."""
+    n = len(specs)
+    level = lambda k: specs[n - 1 - k]          # k levels lie below level k
+    evs = o["events"]
+    idx = [i for i, e in enumerate(evs) if e[0] in ("log", "pw", "tset", "senter")]
+    pos = [0]
+    before = [un(x) for x in o["pool_before"]]
+
+    def nxt(what):
+        if pos[0] >= len(idx):
+            raise _Bad("missing effect: step %d expected %s, nothing more happened" % (step, what))
+        i = idx[pos[0]]
+        pos[0] += 1
+        return i, evs[i]
+
+    def first_opaque_below(k):
+        for j in range(k - 1, -1, -1):
+            if level(j)[0] in ("std", "buffer"):
+                return j
+        return None
+
+    def seg(k, value):
+        while k >= 0 and level(k)[0] in ("plain", "logger"):
+            spec = level(k)
+            if spec[0] == "logger":
+                i, e = nxt("the record of the Logger with %d levels below it" % k)
+                if e[0] == "pw":
+                    raise _Bad("log after write: step %d the pool was written before the Logger with %d levels "
+                               "below it emitted its record" % (step, k))
+                if e[0] != "log":
+                    raise _Bad("log after write: step %d the write was passed on before the Logger with %d levels "
+                               "below it emitted its record (next effect: %s)" % (step, k, e[0]))
+                exp_name = (100 + spec[1]) if spec[1] is not None else \
+                    CLASS_IDS[KIND_CLASS[level(k - 1)[0]] if k >= 1 else "RecPool"]
+                if e[7] != sorted(FIELDS):
+                    raise _Bad("args: step %d record args keys %s" % (step, e[7]))
+                if e[5] != k:
+                    if e[1] == exp_name and e[2] == spec[2]:
+                        raise _Bad("target: step %d record's target is not the Logger's target" % step)
+                    raise _Bad("record order: step %d expected the record of the Logger with %d levels below it, "
+                               "got one whose target has %s levels below" % (step, k, e[5]))
+                if e[1] != exp_name:
+                    raise _Bad("logger name: step %d record on logger id %s, configured %s" % (step, e[1], exp_name))
+                if e[2] != spec[2]:
+                    raise _Bad("level: step %d record has level %s, configured %s" % (step, e[2], spec[2]))
+                if e[3] != template_text(spec[3]):
+                    raise _Bad("message: step %d record carries another template" % step)
+                f = e[4]
+                if un(f["value"]) != value:
+                    raise _Bad("value: step %d record value %s, the write arriving at the Logger was %s" % (
+                        step, f["value"], value))
+                if [un(f["supply"]), un(f["utilisation"]), un(f["allocation"])] != before[1:]:
+                    raise _Bad("before-values: step %d record (supply, utilisation, allocation) %s, target had %s" % (
+                        step, [f["supply"], f["utilisation"], f["allocation"]], [str(x) for x in before[1:]]))
+                if un(f["consumption"]) != before[3]:
+                    raise _Bad("before-values: step %d consumption is not the allocation" % step)
+                ob = first_opaque_below(k)
+                if ob is None:
+                    want = un(e[6])          # the pool's demand at emission time
+                else:
+                    rets = [x[2] for x in evs[:i] if x[0] == "gexit" and x[1] == ob]
+                    want = un(rets[-1]) if rets else None
+                if want is None or un(f["demand"]) != want:
+                    raise _Bad("before-values: step %d record demand %s, target had %s" % (step, f["demand"], want))
+            k -= 1
+        if k < 0:
+            i, e = nxt("the write of %s to the pool" % value)
+            if e[0] != "pw" or un(e[1]) != value:
+                if e[0] == "log":
+                    raise _Bad("record count: step %d an extra record was emitted" % step)
+                raise _Bad("demand write: step %d the pool should receive %s, got %s" % (step, value, e[:2]))
+        else:
+            i, e = nxt("the write of %s arriving at the %s" % (value, KIND_CLASS[level(k)[0]]))
+            if e[0] != "senter" or e[1] != k or un(e[2]) != value:
+                if e[0] == "log":
+                    raise _Bad("record count: step %d an extra record was emitted" % step)
+                raise _Bad("demand write: step %d the %s should receive %s, got %s" % (
+                    step, KIND_CLASS[level(k)[0]], value, e[:3]))
+            while pos[0] < len(idx) and evs[idx[pos[0]]][0] == "tset" and evs[idx[pos[0]]][1] == k:
+                _i, t = nxt("")
+                seg(k - 1, un(t[2]))
+
+    try:
+        seg(n - 1, val)
+        if pos[0] < len(idx):
+            e = evs[idx[pos[0]]]
+            if e[0] == "log":
+                raise _Bad("record count: step %d an extra record was emitted after the write was complete" % step)
+            raise _Bad("spurious effect: step %d %s" % (step, e[:3]))
+    except _Bad as b:
+        return [(None, str(b))]
+    return []
+
+
 def oracle(case, res):
     if "harness_error" in res:
         return [(None, "harness error: " + res["harness_error"])]
@@ -422,10 +637,10 @@ def oracle(case, res):
     specs = case["specs"]
     # --- construction: unknown field => RuntimeError; known fields only => accepted
     built = res["built"]
-    if built and built.startswith("other"):
+    if built and built.startswith("other") and not res.get("opaque_fail"):
         v.append((None, "construction: unexpected exception class %s" % built))
     exp_err, exp_warn, decided = None, 0, True
-    for spec in reversed(specs):
+    for lvl, spec in enumerate(reversed(specs)):
         if spec[0] == "logger":
             t = spec[3]
             if t["kind"] == "default":
@@ -438,13 +653,9 @@ def oracle(case, res):
             if e:
                 exp_err = e
                 break
-        elif spec[0] == "std":
-            lo, hi, gran, backlog, surplus = spec[1:]
-            bad = (lo is not None and hi is not None and un(lo) > un(hi)) or un(gran) <= 0 or \
-                  (backlog is not None and un(backlog) <= 0) or (surplus is not None and un(surplus) <= 0)
-            if bad:
-                exp_err = "value"
-                break
+        elif str(lvl) in res.get("opaque_fail", {}):
+            decided = False          # a Standardiser / Buffer refused its parameters: not C16's business
+            break
     if decided:
         if exp_err == "runtime" and built != "runtime":
             v.append((None, "unknown field accepted: a template naming an unknown field was not rejected with "
@@ -458,86 +669,45 @@ def oracle(case, res):
     # --- histories
     n = len(specs)
     kinds = [s[0] for s in specs]
-    first_buffer = kinds.index("buffer") if "buffer" in kinds else n
-    transparent_demand = all(k in ("plain", "logger") for k in kinds)
-    pool = [un(x) for x in case["pool"]]
+    has_opaque = any(k in ("std", "buffer") for k in kinds)
+    top_opaque = None
+    for j, k in enumerate(kinds):
+        if k in ("std", "buffer"):
+            top_opaque = n - 1 - j
+            break
     for i, (op, o) in enumerate(zip(case["ops"], res["obs"])):
         if "raised" in o:
-            v.append((None, "operation raised: step %d %s: %s" % (i, op[0], o["raised"])))
-            continue
-        before = list(pool)
-        if op[0] == "pstate":
-            pool[1:] = [un(op[1]), un(op[2]), un(op[3])]
-        elif op[0] == "pdemand":
-            pool[0] = un(op[1])
+            if not has_opaque:
+                v.append((None, "operation raised: step %d %s: %s" % (i, op[0], o["raised"])))
+            break
+        pool = [un(x) if "/" in x else None for x in o["pool_before"]]      # the pool's true state before the op
         got_pool = [un(x) if "/" in x else None for x in o["pool"]]
         if op[0] == "read":
             d, s, u, a = [un(x) if "/" in x else None for x in o["read"]]
             if [s, u, a] != pool[1:]:
                 v.append((None, "not transparent: step %d read (supply, utilisation, allocation) = %s through the "
                                 "stack, pool has %s" % (i, [str(x) for x in (s, u, a)], [str(x) for x in pool[1:]])))
-            if transparent_demand and d != pool[0]:
-                v.append((None, "demand read: step %d read %s through plain/Logger stack, pool has %s" % (i, d, pool[0])))
-            if got_pool != pool:
-                v.append((None, "pool changed by a read: step %d" % i))
+            if top_opaque is None:
+                if d != pool[0]:
+                    v.append((None, "demand read: step %d read %s through plain/Logger stack, pool has %s" % (i, d, pool[0])))
+                if got_pool != pool:
+                    v.append((None, "pool changed by a read: step %d" % i))
+                if o["events"]:
+                    v.append((None, "spurious effects: step %d a read logged or wrote" % i))
+            else:
+                rets = [x[2] for x in o["events"] if x[0] == "gexit" and x[1] == top_opaque]
+                if len(rets) != 1 or d != un(rets[0]):
+                    v.append((None, "demand read: step %d read %s through plain/Logger levels, the %s below returned %s"
+                              % (i, d, KIND_CLASS[specs[n - 1 - top_opaque][0]], rets)))
+                if any(e[0] == "log" for e in o["events"]):
+                    v.append((None, "spurious effects: step %d a read logged" % i))
         elif op[0] == "write":
-            val = un(op[1])
-            logs = [e for e in o["events"] if e[0] == "log"]
-            pws = [e for e in o["events"] if e[0] == "pw"]
-            # pool's other attributes never change on a write
             if got_pool[1:] != pool[1:]:
                 v.append((None, "write changed supply/utilisation/allocation of the pool: step %d" % i))
-            if transparent_demand:
-                if len(pws) != 1 or un(pws[0][1]) != val or got_pool[0] != val:
-                    v.append((None, "demand write: step %d wrote %s through plain/Logger stack, pool got %s" % (
-                        i, val, [e[1] for e in pws])))
-            pool[0] = got_pool[0] if got_pool[0] is not None else pool[0]
-            # one record per reached Logger, on its logger and level, before the pool write, with before-values
-            seen_pw = False
-            for e in o["events"]:
-                if e[0] == "pw":
-                    seen_pw = True
-                elif seen_pw:
-                    v.append((None, "log after write: step %d a record was emitted after the pool was written" % i))
-            expected = []
-            for j, spec in enumerate(specs[:first_buffer]):
-                if spec[0] == "logger":
-                    expected.append((j, spec))
-            if len(logs) != len(expected):
-                v.append((None, "record count: step %d write produced %d records, %d Loggers are reached" % (
-                    i, len(logs), len(expected))))
-            else:
-                for (j, spec), e in zip(expected, logs):
-                    depth_below = n - j - 1            # decorators below this logger
-                    exp_name = (100 + spec[1]) if spec[1] is not None else \
-                        CLASS_IDS[{"plain": "PoolDecorator", "logger": "Logger", "std": "Standardiser",
-                                   "buffer": "Buffer"}[specs[j + 1][0]] if j + 1 < n else "RecPool"]
-                    if e[1] != exp_name:
-                        v.append((None, "logger name: step %d record on logger id %s, configured %s" % (i, e[1], exp_name)))
-                    if e[2] != spec[2]:
-                        v.append((None, "level: step %d record has level %s, configured %s" % (i, e[2], spec[2])))
-                    if e[3] != template_text(spec[3]):
-                        v.append((None, "message: step %d record carries another template" % i))
-                    f = e[4]
-                    if e[7] != sorted(FIELDS):
-                        v.append((None, "args: step %d record args keys %s" % (i, e[7])))
-                        continue
-                    if e[5] != depth_below:
-                        v.append((None, "target: step %d record's target is not the Logger's target" % i))
-                    if [un(f["supply"]), un(f["utilisation"]), un(f["allocation"])] != before[1:]:
-                        v.append((None, "before-values: step %d record (supply, utilisation, allocation) %s, target had %s"
-                                  % (i, [f["supply"], f["utilisation"], f["allocation"]], [str(x) for x in before[1:]])))
-                    if un(f["consumption"]) != before[3]:
-                        v.append((None, "before-values: step %d consumption is not the allocation" % i))
-                    if un(e[6]) != before[0]:
-                        v.append((None, "log after write: step %d pool demand at emission %s, before the write %s" % (
-                            i, e[6], before[0])))
-                    below = kinds[j + 1:]
-                    above = kinds[:j]
-                    if all(k in ("plain", "logger") for k in below) and un(f["demand"]) != before[0]:
-                        v.append((None, "before-values: step %d record demand %s, target had %s" % (i, f["demand"], before[0])))
-                    if all(k in ("plain", "logger") for k in above) and un(f["value"]) != val:
-                        v.append((None, "value: step %d record value %s, written %s" % (i, f["value"], val)))
+            v += _check_write(specs, o, un(op[1]), i)
+            if not has_opaque and got_pool[0] != un(op[1]):
+                v.append((None, "demand write: step %d wrote %s through plain/Logger stack, pool has %s" % (
+                    i, op[1], got_pool[0])))
         else:
             if o["events"]:
                 v.append((None, "spurious effects: step %d" % i))
@@ -555,15 +725,24 @@ def _oq(x):
     return "None" if x is None else "(Some %s)" % cQ(un(x))
 
 
-def _spec(s):
+def _entry(e):
+    if e[0] == "G":
+        return "(EGet %s %s)" % (cnat(e[1]), _qq(e[2]))
+    acts = clist(("AGet" if a[0] == "g" else "(ASet %s)" % _qq(a[1])) for a in e[2]) if e[2] else "nil"
+    return "(ESet %s %s)" % (_qq(e[1]), acts)
+
+
+def _spec(s, lvl, res):
     if s[0] == "plain":
         return "SPlain"
     if s[0] == "logger":
         return "(SLogger %s %s %s)" % ("None" if s[1] is None else "(Some %s)" % cN(100 + s[1]), cN(s[2]),
                                       cstr(template_text(s[3])))
-    if s[0] == "std":
-        return "(SStandardiser (mkSP %s %s %s %s %s))" % (_oq(s[1]), _oq(s[2]), cQ(un(s[3])), _oq(s[4]), _oq(s[5]))
-    return "SBuffer"
+    sc = res.get("scripts", {}).get(str(lvl), {"init": 0, "entries": [], "bad": False})
+    fail = res.get("opaque_fail", {}).get(str(lvl))
+    return "(SOpaque %s %s %s %s)" % (cN(3 if s[0] == "std" else 4), cnat(sc["init"]),
+                                      _CERR.get(fail, "(Some CType)") if fail else "None",
+                                      clist(_entry(e) for e in sc["entries"]) if sc["entries"] else "nil")
 
 
 def _op(op):
@@ -601,7 +780,8 @@ def _obs(o):
     elif o["op"] == "read":
         ob = "(ORead %s %s %s %s)" % tuple(_qq(x) for x in o["read"])
     elif o["op"] == "write":
-        ob = "(OWrite %s)" % (clist(_event(e) for e in o["events"]) if o["events"] else "nil")
+        vis = [e for e in o["events"] if e[0] in ("log", "pw")]
+        ob = "(OWrite %s)" % (clist(_event(e) for e in vis) if vis else "nil")
     else:
         ob = "ONone"
     return "(%s, %s)" % (ob, _pool(o["pool"]))
@@ -610,13 +790,28 @@ def _obs(o):
 _CERR = {"runtime": "(Some CRuntime)", "value": "(Some CValue)", "type": "(Some CType)", None: "None"}
 
 
+_TRUE_CASE = "(mkCase nil (mkPool 0 0 0 0) nil None 0%nat nil)"
+
+
 def coq_case(case, res):
     built = res.get("built")
-    if "harness_error" in res or (built and built.startswith("other")):
+    if "harness_error" in res:
         return "(mkCase nil %s nil (Some CType) 77%%nat nil)" % _pool(case["pool"])
+    kinds = [s[0] for s in case["specs"]]
+    has_opaque = any(k in ("std", "buffer") for k in kinds)
+    if has_opaque and (any(sc["bad"] for sc in res.get("scripts", {}).values())
+                       or any("raised" in o for o in res.get("obs", []))
+                       or (built and built.startswith("other"))):
+        # an opaque level raised or did something outside the script language: nothing C16 claims
+        return _TRUE_CASE
+    if built and built.startswith("other"):
+        return "(mkCase nil %s nil (Some CType) 77%%nat nil)" % _pool(case["pool"])
+    n = len(case["specs"])
+    specs = [_spec(s, n - 1 - j, res) for j, s in enumerate(case["specs"])]
+    nobs = len(res.get("obs", []))
     return "(mkCase %s %s %s %s %s %s)" % (
-        clist(_spec(s) for s in case["specs"]) if case["specs"] else "nil", _pool(case["pool"]),
-        clist(_op(o) for o in case["ops"]) if case["ops"] else "nil", _CERR[built], cnat(res.get("warn", 0)),
+        clist(specs) if specs else "nil", _pool(case["pool"]),
+        clist(_op(o) for o in case["ops"][:nobs]) if nobs else "nil", _CERR[built], cnat(res.get("warn", 0)),
         clist(_obs(o) for o in res.get("obs", [])) if res.get("obs") else "nil")
 
 
@@ -641,6 +836,8 @@ def distribution(results):
                 inc(d["records_per_write"], sum(1 for e in ob["events"] if e[0] == "log"))
                 if not any(e[0] == "pw" for e in ob["events"]):
                     d["writes_blocked_by_buffer"] += 1
+        if any("raised" in ob for ob in o.get("obs", [])):
+            d["raised"] = d.get("raised", 0) + 1
     return d
 
 
